@@ -445,6 +445,49 @@ fn main() {
             }
             report("case", "d6", "PPSpline(k=4, t=[0,0,0,0,2,5,5,5,5]).csolve with a NaN site / a NaN datum", &obs.join("; "), "a Result (no abort)", all_ok);
         }
+        // calsweep <tables.json>: for every named calendar, the RUNTIME object returned by get_calendar_by_name must agree with the
+        // tables extracted from the sources on every day 1970-01-01..2200-12-31 (Monday-Friday: is_holiday <=> day in table; every day: is_bus_day <=> weekday
+        // not in mask and day not in table).  Validates the extraction used by C07 end to end: HashMap wiring, date parsing, Cal::new, week-mask
+        // conversion, the DateRoll impl of Cal.  Exhaustive over the range.
+        "calsweep" => {
+            let path = args.get(2).map(|s| s.as_str()).unwrap_or("");
+            let txt = std::fs::read_to_string(path).unwrap_or_default();
+            let v: serde_json::Value = serde_json::from_str(&txt).unwrap_or(serde_json::Value::Null);
+            let mut evals: u64 = 0;
+            let mut bad: Option<String> = None;
+            if let Some(obj) = v.as_object() {
+                'outer: for (name, t) in obj {
+                    let hol: std::collections::HashSet<i64> = t["holidays"].as_array().map(|a| a.iter().filter_map(|x| x.as_i64()).collect()).unwrap_or_default();
+                    let mask: Vec<i64> = t["mask"].as_array().map(|a| a.iter().filter_map(|x| x.as_i64()).collect()).unwrap_or_default();
+                    let cal = match rateslib::calendars::get_calendar_by_name(name) {
+                        Ok(c) => c,
+                        Err(_) => { bad = Some(format!("get_calendar_by_name({:?}) is an error but the name is wired in named/mod.rs", name)); break 'outer; }
+                    };
+                    let mut d = ndt(1970, 1, 1);
+                    for z in 0..84371i64 {
+                        evals += 1;
+                        let wd = (z + 3) % 7;
+                        let exp_h = hol.contains(&z);
+                        let exp_w = !mask.contains(&wd);
+                        // what C07 speaks about: on Monday-Friday `is_holiday` is table membership; on every day `is_bus_day` is
+                        // "in the working week and not in the table" (is_holiday on week-end days is not constrained by the property)
+                        let bad_h = wd < 5 && cal.is_holiday(&d) != exp_h;
+                        let bad_b = cal.is_bus_day(&d) != (exp_w && !exp_h);
+                        if bad_h || bad_b {
+                            bad = Some(format!("get_calendar_by_name({:?}) on {} (weekday {}): is_holiday = {} (table: {}), is_bus_day = {} (mask and table: {})", name, d.date(), wd, cal.is_holiday(&d), exp_h, cal.is_bus_day(&d), exp_w && !exp_h));
+                            break 'outer;
+                        }
+                        d = d + Days::new(1);
+                    }
+                }
+            } else {
+                bad = Some("cannot read the table file".into());
+            }
+            match bad {
+                Some(b) => report("case", "calsweep", &b, "runtime object disagrees with the source tables", "agreement on every day 1970-2200", false),
+                None => println!("{{\"case\":\"calsweep\",\"holds\":true,\"evaluations\":{}}}", evals),
+            }
+        }
         // replay of a calendar query: calq <name> <yyyy-mm-dd>
         "calq" => {
             let name = args.get(2).map(|s| s.as_str()).unwrap_or("");
